@@ -216,6 +216,10 @@ fn check_snapshot(o: &mut CompOutcome, s: &MemStorage, m: &Model, req: u64, expe
 }
 
 pub fn run_sequence(o: &mut CompOutcome, ops: &[Op], keep: bool) {
+    super::guarded(o, "C19", &|| format!("ops {:?}", ops), &mut |o| run_sequence_inner(o, ops, keep));
+}
+
+fn run_sequence_inner(o: &mut CompOutcome, ops: &[Op], keep: bool) {
     o.cases += 1;
     let s = MemStorage::new_with_conf_state((vec![1u64, 2, 3], vec![]));
     let mut m = Model { snap: (0, 0), base: 0, base_term: 0, ents: Vec::new(), hs: (0, 0, 0), conf: vec![1, 2, 3] };
